@@ -211,7 +211,14 @@ func Run(ctx *common.Ctx) {
 	debug := os.Getenv("VERIF_C19_DEBUG") != ""
 	for i := 0; i < nvalues; i++ {
 		symOK := g.r.Chance(25)
-		v := g.value(3, symOK)
+		var v slip.Object
+		if i%2 == 0 {
+			g.safe = true // the shapes inside the guard, so that large values stay inside it
+			v = g.safeValue(3)
+			g.safe = false
+		} else {
+			v = g.value(3, symOK)
+		}
 		margins := []int{20, 120, 20 + g.r.Intn(101), 20 + g.r.Intn(30), 40 + g.r.Intn(40)}
 		term, d, ok := observeData(v, margins)
 		if !ok {
